@@ -184,6 +184,17 @@ impl Agg {
             _ => None,
         }
     }
+    pub fn subs_mut(&mut self) -> Option<&mut Aggs> {
+        match self {
+            Agg::Range { subs, .. }
+            | Agg::Hist { subs, .. }
+            | Agg::DateHist { subs, .. }
+            | Agg::Terms { subs, .. }
+            | Agg::Filter { subs, .. }
+            | Agg::Composite { subs, .. } => Some(subs),
+            _ => None,
+        }
+    }
     pub fn fields(&self, out: &mut Vec<Fd>) {
         match self {
             Agg::Metric { field, .. } | Agg::Pct { field, .. } | Agg::Card { field, .. } => {
@@ -548,29 +559,42 @@ impl<'a> Gen<'a> {
         if !self.rng.chance(1, 4) {
             return None;
         }
-        Some(match f.ty() {
-            Ty::F64 => *self.rng.pick(&[0.0, -2.5, 7.25, 100.0]),
+        Some(self.missing_value(f))
+    }
+
+    fn missing_value(&mut self, f: Fd) -> f64 {
+        match f.ty() {
+            Ty::F64 => *self.rng.pick(&[0.0, -2.5, 7.25, 100.0, 0.3]),
             Ty::I64 => self.rng.irange(-20, 20) as f64,
             Ty::U64 => self.rng.range(0, 50) as f64,
             // whole seconds are exactly representable as f64 nanoseconds
             Ty::Date => (1_546_300_800i64 + self.rng.irange(-100, 100)) as f64 * 1e9,
             _ => 1.0,
-        })
+        }
     }
 
     pub fn gen_metric(&mut self) -> (String, Agg) {
         let r = self.rng.weighted(&[55, 10, 12, 8]);
+        self.gen_metric_branch(r, None)
+    }
+
+    /// branch: 0 plain metric (of kind `mk`, random when None), 1 percentiles, 2 cardinality,
+    /// 3 top_hits
+    pub fn gen_metric_branch(&mut self, r: usize, mk: Option<MK>) -> (String, Agg) {
         match r {
             0 => {
-                let kind = *self.rng.pick(&[
-                    MK::Count,
-                    MK::Sum,
-                    MK::Min,
-                    MK::Max,
-                    MK::Avg,
-                    MK::Stats,
-                    MK::ExtStats,
-                ]);
+                let kind = match mk {
+                    Some(k) => k,
+                    None => *self.rng.pick(&[
+                        MK::Count,
+                        MK::Sum,
+                        MK::Min,
+                        MK::Max,
+                        MK::Avg,
+                        MK::Stats,
+                        MK::ExtStats,
+                    ]),
+                };
                 let field = if kind == MK::Count && self.rng.chance(1, 3) {
                     *self.rng.pick(&[Fd::Cat, Fd::Tag, Fd::Fb, Fd::Fip, Fd::Fdt])
                 } else if self.rng.chance(1, 5) {
@@ -614,7 +638,13 @@ impl<'a> Gen<'a> {
                     })
                 };
                 let keyed = *self.rng.pick(&[None, Some(true), Some(false)]);
-                let missing = self.missing_for(field);
+                let mut missing = self.missing_for(field);
+                // the sketch keeps at most 2048 bins of relative width 2 %: values spread over
+                // more than ~17 decades collapse its lowest bins (documented DDSketch behaviour);
+                // a small `missing` next to values around 2^63 is outside the accuracy guarantee
+                if self.corpus.span(field).map(|(_, hi)| hi >= 1e15).unwrap_or(false) {
+                    missing = None;
+                }
                 (
                     self.name("pct"),
                     Agg::Pct {
@@ -756,27 +786,36 @@ impl<'a> Gen<'a> {
         (interval, offset, min_doc_count, hard, ext)
     }
 
+    pub fn gen_hist_on(&mut self, field: Fd, depth: usize) -> (String, Agg) {
+        let (interval, offset, min_doc_count, hard, ext) = self.hist_params(field);
+        let subs = self.gen_subs(depth, false);
+        (
+            self.name("hist"),
+            Agg::Hist {
+                field,
+                interval,
+                offset,
+                min_doc_count,
+                hard,
+                ext,
+                keyed: self.rng.chance(1, 5),
+                subs,
+            },
+        )
+    }
+
     pub fn gen_bucket(&mut self, depth: usize, top: bool) -> (String, Agg) {
         let r = self.rng.weighted(&[34, 18, 12, 14, 10, 12]);
+        self.gen_bucket_branch(r, depth, top)
+    }
+
+    /// branch: 0 terms, 1 histogram, 2 date_histogram, 3 range, 4 filter, 5 composite
+    pub fn gen_bucket_branch(&mut self, r: usize, depth: usize, top: bool) -> (String, Agg) {
         match r {
             0 => self.gen_terms(depth, top),
             1 => {
                 let field = self.pick_single_num_field(true);
-                let (interval, offset, min_doc_count, hard, ext) = self.hist_params(field);
-                let subs = self.gen_subs(depth, false);
-                (
-                    self.name("hist"),
-                    Agg::Hist {
-                        field,
-                        interval,
-                        offset,
-                        min_doc_count,
-                        hard,
-                        ext,
-                        keyed: self.rng.chance(1, 5),
-                        subs,
-                    },
-                )
+                self.gen_hist_on(field, depth)
             }
             2 => {
                 let field = Fd::Fdt;
@@ -1039,6 +1078,11 @@ impl<'a> Gen<'a> {
             Fd::Im,
             Fd::Rank,
         ]);
+        self.gen_terms_on(field, depth, top)
+    }
+
+    /// terms aggregation whose per segment cut-off never cuts anything (exact comparison)
+    pub fn gen_terms_on(&mut self, field: Fd, depth: usize, top: bool) -> (String, Agg) {
         let card = self.corpus.distinct(field) as u32 + 2;
         let size = match self.rng.below(5) {
             0 => None,
@@ -1185,6 +1229,374 @@ impl<'a> Gen<'a> {
                 subs,
             },
         )
+    }
+
+    // -----------------------------------------------------------------------------------------
+    // focus shapes: families of requests that the free generator reaches too rarely
+
+    /// upper estimate of the number of buckets a request creates (the default bucket limit of
+    /// 65 000 answers larger requests with an error, which is correct but tells nothing)
+    pub fn est_buckets(&self, a: &Agg) -> f64 {
+        let span_in = |f: Fd, scale: f64| self.corpus.span(f).map(|(lo, hi)| (lo / scale, hi / scale));
+        let grid = |f: Fd, scale: f64, interval: f64, ext: &Option<(f64, f64)>| -> f64 {
+            let (mut lo, mut hi) = span_in(f, scale).unwrap_or((0.0, 0.0));
+            if let Some((a, b)) = ext {
+                lo = lo.min(*a);
+                hi = hi.max(*b);
+            }
+            ((hi - lo) / interval.max(1e-9)).ceil() + 2.0
+        };
+        let own = match a {
+            Agg::Terms { field, .. } => self.corpus.distinct(*field) as f64 + 1.0,
+            Agg::Hist { field, interval, ext, .. } => {
+                let scale = if field.ty() == Ty::Date { 1e6 } else { 1.0 };
+                grid(*field, scale, *interval, ext)
+            }
+            Agg::DateHist { field, interval, ext, .. } => grid(*field, 1e6, interval.1 as f64, ext),
+            Agg::Range { ranges, .. } => ranges.len() as f64 + 2.0,
+            Agg::Filter { .. } => 1.0,
+            Agg::Composite { sources, size, .. } => {
+                let all: f64 = sources.iter().map(|s| self.corpus.distinct(s.field) as f64 + 1.0).product();
+                all.min(*size as f64)
+            }
+            _ => return 0.0,
+        };
+        let below: f64 = a.subs().map(|s| s.iter().map(|(_, x)| self.est_buckets(x)).sum()).unwrap_or(0.0);
+        own * (1.0 + below)
+    }
+
+    /// `inner` below `parent` unless that would multiply into too many buckets; then `inner` alone
+    fn nest_if_small(&mut self, name: String, mut parent: Agg, inner: (String, Agg)) -> (String, Agg) {
+        let own = self.est_buckets(&parent).max(1.0);
+        if own * (1.0 + self.est_buckets(&inner.1)) > 20_000.0 {
+            return inner;
+        }
+        if let Some(s) = parent.subs_mut() {
+            s.push(inner);
+        }
+        (name, parent)
+    }
+
+    /// one sub aggregation, every kind equally likely (metrics 0..=6, percentiles, cardinality,
+    /// top_hits, and with `allow_bucket` terms / histogram / date_histogram / range / filter /
+    /// composite)
+    pub fn gen_sub_uniform(&mut self, allow_bucket: bool, depth: usize) -> (String, Agg) {
+        const MKS: [MK; 7] = [MK::Count, MK::Sum, MK::Min, MK::Max, MK::Avg, MK::Stats, MK::ExtStats];
+        let k = self.rng.usize_below(if allow_bucket { 16 } else { 10 });
+        match k {
+            0..=6 => self.gen_metric_branch(0, Some(MKS[k])),
+            7 => self.gen_metric_branch(1, None),
+            8 => self.gen_metric_branch(2, None),
+            9 => self.gen_metric_branch(3, None),
+            _ => self.gen_bucket_branch(k - 10, depth, false),
+        }
+    }
+
+    /// wraps `inner` into a parent bucket aggregation without other sub aggregations of its own
+    /// (filter / range / low-cardinality terms / histogram), so that `inner` is not top-level
+    fn wrap_in_parent(&mut self, inner: (String, Agg)) -> (String, Agg) {
+        let (name, parent) = match self.rng.below(5) {
+            0 => {
+                let q = match self.rng.below(3) {
+                    0 => FilterQ::All,
+                    1 => FilterQ::BoolIs(self.rng.bool()),
+                    _ => {
+                        let n = self.corpus.docs.len() as u64;
+                        FilterQ::IdRange(self.rng.range(0, n / 4 + 1), n)
+                    }
+                };
+                (self.name("filter"), Agg::Filter { q, subs: vec![] })
+            }
+            1 => self.gen_bucket_branch(3, 0, true),
+            2 => {
+                let f = *self.rng.pick(&[Fd::Rank, Fd::Fb, Fd::Cat]);
+                self.gen_terms_on(f, 0, false)
+            }
+            3 => {
+                let f = *self.rng.pick(&[Fd::Rank, Fd::Id, Fd::Fi]);
+                self.gen_hist_on(f, 0)
+            }
+            _ => (
+                self.name("filter"),
+                Agg::Filter {
+                    q: FilterQ::All,
+                    subs: vec![],
+                },
+            ),
+        };
+        self.nest_if_small(name, parent, inner)
+    }
+
+    /// Terms ordered by `_key`, top-level or below another bucket aggregation, with and without a
+    /// per segment cut-off. For this order the cut-off (every segment keeps its first
+    /// `segment_size >= size` keys in the requested order) cannot change the final result as long
+    /// as `min_doc_count <= 1`: a key among the first `size` keys of the corpus is among the first
+    /// `size` keys of every segment that holds it. The comparison therefore stays exact.
+    /// Returns the aggregation and a tag of the variant for the evidence.
+    pub fn gen_terms_by_key(&mut self) -> ((String, Agg), String) {
+        let field = *self.rng.pick(&[
+            Fd::Cat,
+            Fd::Tag,
+            Fd::Tag,
+            Fd::Txt,
+            Fd::Fi,
+            Fd::Fi,
+            Fd::Fu,
+            Fd::Ff,
+            Fd::Ff,
+            Fd::Ff,
+            Fd::Fdt,
+            Fd::Fip,
+            Fd::Im,
+            Fd::Rank,
+            Fd::Id,
+        ]);
+        let distinct = self.corpus.distinct(field) as u32;
+        let cut = distinct >= 2 && self.rng.chance(2, 3);
+        let (size, segment_size) = if cut {
+            if distinct > 10 && self.rng.chance(1, 3) {
+                // default segment_size = 10 * size < number of distinct terms
+                let size = self.rng.range(1, ((distinct - 1) / 10) as u64) as u32;
+                (Some(size), None)
+            } else {
+                let cands = [1, 2, 3, distinct / 4, distinct / 2, distinct - 1];
+                let s = (*self.rng.pick(&cands)).clamp(1, distinct - 1);
+                let size = match self.rng.below(3) {
+                    0 => s,
+                    1 => 1,
+                    _ => self.rng.range(1, s as u64) as u32,
+                };
+                (Some(size), Some(s))
+            }
+        } else {
+            let card = distinct + 2;
+            let size = match self.rng.below(4) {
+                0 => None,
+                1 => Some(card + 3),
+                2 => Some(self.rng.range(1, 4) as u32),
+                _ => Some(self.rng.range(1, card as u64) as u32),
+            };
+            (size, Some(card + self.rng.range(0, 2) as u32))
+        };
+        let subs = match self.rng.below(3) {
+            0 => vec![],
+            1 => vec![self.gen_sub_uniform(false, 0)],
+            _ => self.gen_subs(2, false),
+        };
+        let asc = self.rng.bool();
+        let min_doc_count = *self.rng.pick(&[None, None, Some(1)]);
+        let show_err = *self.rng.pick(&[None, None, Some(true), Some(false)]);
+        let mut inner = (
+            self.name("terms"),
+            Agg::Terms {
+                field,
+                size,
+                segment_size,
+                min_doc_count,
+                order: Some((OrdT::Key, asc)),
+                missing: None,
+                show_err,
+                approx: false,
+                subs,
+            },
+        );
+        if self.est_buckets(&inner.1) > 20_000.0 {
+            let metric = self.gen_sub_uniform(false, 0);
+            if let Some(s) = inner.1.subs_mut() {
+                *s = vec![metric];
+            }
+        }
+        let nested = self.rng.chance(1, 2);
+        let tag = format!(
+            "terms-by-key/{}/{}/{:?}",
+            if cut { "segment-cut" } else { "uncut" },
+            if nested { "nested" } else { "top" },
+            field.ty()
+        );
+        if nested {
+            (self.wrap_in_parent(inner), tag)
+        } else {
+            (inner, tag)
+        }
+    }
+
+    /// A bucket aggregation over the values of a single-valued field with a metric over the same
+    /// field below it: every bucket of a terms / composite-terms parent holds one constant value
+    /// (narrow histogram and range buckets nearly constant ones), also values whose sums are not
+    /// exactly representable (ns timestamps, large integers, non-dyadic fractions).
+    pub fn gen_same_field_metric(&mut self) -> ((String, Agg), String) {
+        let cands = [Fd::Ff, Fd::Ff, Fd::Fdt, Fd::Fdt, Fd::Fi, Fd::Fu, Fd::Id, Fd::Rank];
+        // two times out of three a field whose values repeat often (long runs of one value in a
+        // bucket), if there is one
+        let repeated: Vec<Fd> = cands.iter().cloned().filter(|f| self.corpus.repetition(*f) >= 30.0).collect();
+        let field = if !repeated.is_empty() && self.rng.chance(2, 3) {
+            *self.rng.pick(&repeated)
+        } else {
+            *self.rng.pick(&cands)
+        };
+        let kind = *self.rng.pick(&[MK::ExtStats, MK::ExtStats, MK::ExtStats, MK::Stats, MK::Avg, MK::Sum]);
+        // `missing` turns a sparse or absent field into a long run of one value
+        let missing = if self.rng.chance(2, 5) { Some(self.missing_value(field)) } else { None };
+        let sigma = if kind == MK::ExtStats && self.rng.chance(1, 3) {
+            Some(*self.rng.pick(&[1.0, 3.0, 0.5]))
+        } else {
+            None
+        };
+        let metric = (
+            self.name(kind.short()),
+            Agg::Metric {
+                kind,
+                field,
+                missing,
+                sigma,
+            },
+        );
+        let pk = self.rng.below(5);
+        let (name, mut parent) = match pk {
+            0 | 1 => self.gen_terms_on(field, 0, true),
+            2 => self.gen_hist_on(field, 0),
+            3 => {
+                let size = *self.rng.pick(&[10u32, 50, 1000]);
+                (
+                    self.name("composite"),
+                    Agg::Composite {
+                        sources: vec![CSrc {
+                            name: "s0".into(),
+                            kind: CK::Terms,
+                            field,
+                            asc: self.rng.bool(),
+                            missing_bucket: self.rng.chance(1, 3),
+                            missing_order: 0,
+                        }],
+                        size,
+                        after: None,
+                        subs: vec![],
+                    },
+                )
+            }
+            _ => {
+                // the whole (sparse or absent) field replaced by `missing`, or a constant filter
+                let q = match self.rng.below(3) {
+                    0 => FilterQ::All,
+                    1 => FilterQ::BoolIs(self.rng.bool()),
+                    _ => FilterQ::Cat(format!("c{}", self.rng.usize_below(self.corpus.cat_pool))),
+                };
+                (self.name("filter"), Agg::Filter { q, subs: vec![] })
+            }
+        };
+        let tag = format!("same-field-metric/{}>{}/{:?}", parent.kind(), kind.short(), field.ty());
+        if let Some(s) = parent.subs_mut() {
+            s.push(metric);
+        }
+        ((name, parent), tag)
+    }
+
+    /// A range aggregation with buckets that no document can fall into (before the smallest and
+    /// after the largest value, and open ended on both sides), with one or two sub aggregations of
+    /// any kind: parent buckets that exist without ever receiving a document.
+    pub fn gen_empty_parent_bucket(&mut self) -> ((String, Agg), String) {
+        let mut cands = vec![Fd::Rank, Fd::Id, Fd::Fi, Fd::Ff];
+        if self.corpus.span(Fd::Fu).map(|(_, hi)| hi < 1e15).unwrap_or(true) {
+            cands.push(Fd::Fu);
+        }
+        let field = *self.rng.pick(&cands);
+        let unsigned = field.ty() == Ty::U64;
+        let (lo, hi) = self.corpus.span(field).unwrap_or((0.0, 10.0));
+        let (lo, hi) = (lo.floor(), hi.floor() + 1.0);
+        let mid = ((lo + hi) / 2.0).floor();
+        // ascending cut points; [hi, hi + 7) and everything after it is empty, and (for signed
+        // fields) everything before lo
+        let mut cuts: Vec<f64> = vec![];
+        if !unsigned && self.rng.bool() {
+            cuts.push(lo - 5.0);
+        }
+        cuts.push(lo.max(if unsigned { 1.0 } else { f64::MIN }));
+        if mid > cuts[cuts.len() - 1] && self.rng.bool() {
+            cuts.push(mid);
+        }
+        if hi > cuts[cuts.len() - 1] {
+            cuts.push(hi);
+        }
+        cuts.push(cuts[cuts.len() - 1] + 7.0);
+        if self.rng.bool() {
+            cuts.push(cuts[cuts.len() - 1] + 100.0);
+        }
+        let mut ranges: Vec<Rg> = vec![];
+        if self.rng.bool() {
+            ranges.push(Rg {
+                from: None,
+                to: Some(cuts[0]),
+                key: None,
+            });
+        }
+        for w in cuts.windows(2) {
+            ranges.push(Rg {
+                from: Some(w[0]),
+                to: Some(w[1]),
+                key: None,
+            });
+        }
+        if self.rng.bool() {
+            ranges.push(Rg {
+                from: Some(cuts[cuts.len() - 1]),
+                to: None,
+                key: None,
+            });
+        }
+        let mut subs = vec![self.gen_sub_uniform(true, 1)];
+        if self.rng.chance(1, 3) {
+            subs.push(self.gen_sub_uniform(true, 0));
+        }
+        let tag = format!("empty-parent-bucket/range>{}", subs[0].1.kind());
+        let inner = (
+            self.name("range"),
+            Agg::Range {
+                field,
+                ranges,
+                keyed: self.rng.chance(1, 5),
+                subs,
+            },
+        );
+        if self.rng.chance(1, 4) {
+            (self.wrap_in_parent(inner), format!("{tag}/nested"))
+        } else {
+            (inner, tag)
+        }
+    }
+
+    /// Any bucket aggregation with (at least) one sub aggregation of a uniformly chosen kind. Meant
+    /// for segments that are larger than the sub aggregation buffer (2048 documents), where the
+    /// sub aggregation collectors are fed by several flushes announcing different bucket ranges.
+    pub fn gen_bucket_over_any_sub(&mut self) -> ((String, Agg), String) {
+        let branch = self.rng.weighted(&[40, 20, 8, 10, 2, 20]);
+        let top = self.rng.chance(2, 3);
+        let depth = self.rng.urange(0, 1);
+        let (name, mut parent) = self.gen_bucket_branch(branch, depth, top);
+        let composite = matches!(parent, Agg::Composite { .. });
+        let sub = if self.rng.chance(1, 4) {
+            self.gen_metric_branch(3, None)
+        } else {
+            self.gen_sub_uniform(!composite, 1)
+        };
+        let sub = if self.est_buckets(&parent).max(1.0) * (1.0 + self.est_buckets(&sub.1)) > 20_000.0 {
+            // too many buckets: a metric instead
+            if self.rng.chance(1, 3) {
+                self.gen_metric_branch(3, None)
+            } else {
+                self.gen_sub_uniform(false, 0)
+            }
+        } else {
+            sub
+        };
+        let tag = format!("bucket-over-any-sub/{}>{}", parent.kind(), sub.1.kind());
+        if let Some(s) = parent.subs_mut() {
+            s.push(sub);
+        }
+        if !top {
+            (self.wrap_in_parent((name, parent)), tag)
+        } else {
+            ((name, parent), tag)
+        }
     }
 
     pub fn gen_request(&mut self) -> Aggs {
